@@ -4,6 +4,9 @@
 //
 //	root <hex of n*32 bytes | ->                       real crypto.ComputeRoot
 //	sanity <blockhex> <pre> <size> <special> <hdrRoot> <tx>...   real BlockChain.CheckBlockSanity
+//	mine <k>
+//	    a regnet node with k (0/1) transfers in its transaction pool assembles its own block with the real
+//	    pow.Service.GenerateBlock; the block object and its wire copy are judged by CheckBlockSanity.
 //	pool <goodBlockHex> <mutation> <pre> <size> <special> <hdrRoot> <tx>...
 //	    a real mempool.BlockPool on the fixture chain: the accepted block is pooled without confirm
 //	    (AppendDposBlock), then the same header with a mutated transaction list arrives together with
@@ -19,6 +22,7 @@ package main
 import (
 	"bytes"
 	"crypto/sha256"
+	"encoding/binary"
 	"encoding/hex"
 	"fmt"
 	"math/big"
@@ -400,6 +404,93 @@ func runPool(goodHex, mut string) orphanRun {
 	return orphanRun{desc, fmt.Sprintf("%s bound=%d", out, ok)}
 }
 
+// runMine: the node's own block assembly (pow.Service.GenerateBlock) with k transactions in the pool
+func runMine(k int) string {
+	getChain()
+	savedFA, savedLedger, savedDP, savedDesc := blockchain.FoundationAddress, blockchain.DefaultLedger, config.DefaultParams, descParams
+	defer func() {
+		blockchain.FoundationAddress, blockchain.DefaultLedger, config.DefaultParams, descParams = savedFA, savedLedger, savedDP, savedDesc
+	}()
+	dir, err := os.MkdirTemp("", "elaverif-c07-mine-")
+	if err != nil {
+		panic("harness: " + err.Error())
+	}
+	defer os.RemoveAll(dir)
+	n, err := regnet.NewNode(dir, regnet.Options{CoinbaseMaturity: 1})
+	if err != nil {
+		panic("harness: regnet: " + err.Error())
+	}
+	defer n.Close()
+	parent := n.Genesis
+	for i := 0; i < 2; i++ {
+		b, err := n.Mine(parent, nil)
+		if err != nil {
+			panic("harness: mine: " + err.Error())
+		}
+		if _, _, err := n.Deliver(b); err != nil {
+			panic("harness: deliver: " + err.Error())
+		}
+		parent = b
+	}
+	if k > 0 {
+		gid := n.Genesis.Transactions[0].Hash()
+		us, err := n.UTXOs(0)
+		if err != nil {
+			panic("harness: utxos: " + err.Error())
+		}
+		done := 0
+		for _, u := range us {
+			if u.TxID != gid || done >= k || u.Value < 1000000 {
+				continue
+			}
+			tx, err := n.Transfer(0, []common2.OutPoint{{TxID: u.TxID, Index: uint16(u.Index)}},
+				[]regnet.Out{{To: 1, Value: u.Value - 100000}}, uint64(done+1))
+			if err != nil {
+				panic("harness: transfer: " + err.Error())
+			}
+			if err := n.Submit(tx); err != nil {
+				return "submit-failed"
+			}
+			done++
+		}
+		if done != k {
+			return "no-coins"
+		}
+	}
+	addr, err := n.Addr(1).ToAddress()
+	if err != nil {
+		panic("harness: " + err.Error())
+	}
+	blk, err := n.Pow.GenerateBlock(addr, 100)
+	if err != nil {
+		return "generate-failed"
+	}
+	// solve it the way SolveBlock does, WITHOUT touching the header's merkle root
+	ap := auxpow.GenerateAuxPow(blk.Header.Hash())
+	blk.Header.AuxPow = *ap
+	for nonce := uint32(0); ; nonce++ {
+		blk.Header.AuxPow.ParBlockHeader.Nonce = nonce
+		if blockchain.CheckProofOfWork(&blk.Header, n.Params.PowConfiguration.PowLimit) == nil {
+			break
+		}
+	}
+	cls := func(b *types.Block) (res string) {
+		defer func() {
+			if e := recover(); e != nil {
+				res = "panic"
+			}
+		}()
+		return strings.ReplaceAll(classify(n.Chain.CheckBlockSanity(b)), " ", ":")
+	}
+	obj := cls(blk)
+	wire := decodeBlock(blockHex(blk))
+	bnd := 0
+	if bound(wire) {
+		bnd = 1
+	}
+	return fmt.Sprintf("obj=%s wire=%s bound=%d ntx=%d", obj, cls(wire), bnd, len(blk.Transactions))
+}
+
 type orphanRun struct {
 	desc string // description of the delivered (possibly forged) block
 	out  string
@@ -594,6 +685,8 @@ func exec(t []string) string {
 			return "oracle-mismatch"
 		}
 		return classify(c.CheckBlockSanity(b))
+	case "mine":
+		return runMine(atoi(t[1]))
 	case "pool":
 		run := runPool(t[1], t[2])
 		if run.desc != strings.Join(t[3:], " ") {
@@ -728,6 +821,14 @@ func emitSanityRaw(g *hx.Gen, raw []byte) (out string) {
 	return g.Emit("sanity %s %s", hexs, describe(getChain(), bb))
 }
 
+func encodeTxBytes(tx interfaces.Transaction) []byte {
+	b := new(bytes.Buffer)
+	if err := tx.Serialize(b); err != nil {
+		panic("harness: " + err.Error())
+	}
+	return b.Bytes()
+}
+
 // txOffsets returns the offset of every transaction inside the serialised block
 func txOffsets(b *types.Block) ([]byte, []int) {
 	buf := new(bytes.Buffer)
@@ -830,6 +931,11 @@ func gen(g *hx.Gen) {
 		g.Emit("orphan %d %d %s %s", depth, k, mut, run.desc)
 	}
 
+	// ---- the node's own blocks (pow.Service.GenerateBlock), empty and non-empty pool
+	for _, k := range []int{0, 1} {
+		g.Emit("mine %d", k)
+	}
+
 	// ---- CheckDuplicateTx on its own: every transaction type with a per-block unique payload key
 	keyPool := []string{"02aa", "02bb", "03cc", "02dd", "03ee"}
 	cidPool := []string{"67" + strings.Repeat("11", 20), "67" + strings.Repeat("22", 20), "67" + strings.Repeat("33", 20)}
@@ -899,9 +1005,6 @@ func gen(g *hx.Gen) {
 		sealWith(nb, true, make([]common.Uint256, 31000))
 		emitSanity(g, nb)
 		for _, cnt := range []int{10000, 10001} {
-			if g.Quick() && cnt == 10000 {
-				continue
-			}
 			txs := []interfaces.Transaction{cloneTx(cbT)}
 			for len(txs) < cnt {
 				txs = append(txs, freshInputless(r))
@@ -909,6 +1012,18 @@ func gen(g *hx.Gen) {
 			nb = withTxs(fixture, txs)
 			seal(nb)
 			emitSanity(g, nb)
+			if cnt == 10000 {
+				// the full block changed ON THE WIRE: count field raised, the last transaction sent twice /
+				// a further transaction appended (the header, and so the merkle root, stay)
+				raw, offs := txOffsets(nb)
+				hb := new(bytes.Buffer)
+				nb.Header.Serialize(hb)
+				for _, extra := range [][]byte{raw[offs[cnt-1]:], encodeTxBytes(freshInputless(r))} {
+					w := append(append([]byte{}, raw...), extra...)
+					binary.LittleEndian.PutUint32(w[hb.Len():], uint32(cnt+1))
+					emitSanityRaw(g, w)
+				}
+			}
 		}
 		if !g.Quick() { // a block above MaxBlockContextSize+MaxBlockHeaderSize
 			txs := []interfaces.Transaction{cloneTx(cbT)}
@@ -1188,6 +1303,10 @@ func oracle(t []string, out string) *hx.Violation {
 		if out != want {
 			return &hx.Violation{Kind: "root-differs", Detail: "ComputeRoot differs from the reference definition " + want}
 		}
+	case "mine":
+		if strings.HasPrefix(out, "obj=ok") && !(strings.Contains(out, "wire=ok") && strings.Contains(out, "bound=1")) {
+			return &hx.Violation{Kind: "mined-block-unbound", Detail: "the node accepts its own block object although the block, as encoded and hashed afresh, is not bound to its header: " + out}
+		}
 	case "pool":
 		if strings.Contains(out, "panic") {
 			return &hx.Violation{Kind: "block-pool-panic", Detail: "BlockPool.AppendDposBlock panicked"}
@@ -1269,6 +1388,19 @@ func oracle(t []string, out string) *hx.Violation {
 		}
 		// header binding: the header bytes are the prefix of the block up to the tx count; use hdrRoot+aux as key
 		b := decodeBlock(t[1])
+		// what was delivered is what was judged: the transaction count on the wire is the number of
+		// transactions looked at, and no byte of the message was left unread
+		{
+			hb := new(bytes.Buffer)
+			b.Header.Serialize(hb)
+			raw := hx.UnHex(t[1])
+			if wc := binary.LittleEndian.Uint32(raw[hb.Len():]); int(wc) != len(descs) {
+				return &hx.Violation{Kind: "accept-count-mismatch", Detail: fmt.Sprintf("accepted a block message announcing %d transactions after looking at %d", wc, len(descs))}
+			}
+			if blockHex(b) != t[1] {
+				return &hx.Violation{Kind: "accept-unread-bytes", Detail: "accepted a block message whose bytes are not the encoding of the block that was checked"}
+			}
+		}
 		hh := b.Header.Hash()
 		key := hex.EncodeToString(hh[:])
 		ids := strings.Join(idsOf(t), " ")
@@ -1305,7 +1437,7 @@ func refRoot(hs []common.Uint256) []byte {
 }
 
 func nontrivial(t []string, out string) bool {
-	if t[0] == "orphan" || t[0] == "duptx" || t[0] == "pool" {
+	if t[0] == "orphan" || t[0] == "duptx" || t[0] == "pool" || t[0] == "mine" {
 		return true
 	}
 	if t[0] == "root" {
@@ -1332,6 +1464,9 @@ func bucket(t []string, out string) string {
 	}
 	if t[0] == "duptx" {
 		return "duptx/" + out
+	}
+	if t[0] == "mine" {
+		return "mine/" + strings.Fields(out)[0]
 	}
 	if t[0] == "pool" {
 		return "pool/" + t[2] + "/" + strings.Fields(out)[1]
